@@ -2,7 +2,8 @@
    Specification: Trace/Doc.v (doc_schema: the mapping of lib.rs and of every option's doc comment,
    by recursion on a description of the type). Models: Trace/Tracer.v (from_samples, to_field,
    overwrites). from_type of the crate is compared with doc_schema inside Coq on every case. *)
-From Verif Require Import Tracer Doc CoerceTable CoerceTable_proofs TracerTablesSpec FromType FromType_proofs Constants ConstantsSpec.
+From Verif Require Import Tracer Doc CoerceTable CoerceTable_proofs TracerTablesSpec FromType FromType_proofs Constants ConstantsSpec Null_proofs Shapes_proofs Project_proofs Agree.
+Require Import Lia.
 Local Open Scope nat_scope.
 
 (* Full-strength statements (kept visible); judged per case by RunC08.oracle / corr *)
@@ -135,6 +136,56 @@ Theorem C08_constants_match_source :
   max_depth = max_type_depth /\ depth_limited_transitions = 5 /\ defaults_ok = true.
 Proof. destruct constants_match as (A & B & _ & D). exact (conj A (conj B D)). Qed.
 
+(* ---- the two tracers agree ----
+   `Cov ty vs` (Trace/Agree.v): vs are values of the type described by ty as its derived / std Serialize impl presents them, and together
+   they exercise every variant, a Some below every Option and a non-empty collection below every sequence and map.  Then tracing the
+   samples gives the fully explored tracer of the type - the one from_type converges to - up to the sample counters, so from_samples
+   returns the documented schema, which is what from_type returns.  Side conditions: `ok` (as for from_type: depth limit, no map under
+   map_as_struct, 1..128 variants, no unit-like newtype payload) and guess_dates off (a String sample that looks like a date is traced as
+   a date: the documented difference between the tracers).  By induction on the type from the projection theorems and their converses. *)
+Theorem C08_samples_give_full_tracer : forall o, o_guess_dates o = false -> forall ty d vs, ok o d ty = true -> Cov ty vs ->
+  exists t, trace_seq' o d vs (Ok (TUnknown false)) = Ok t /\ norm t = norm (full o false ty).
+Proof. exact cov_full. Qed.
+
+Theorem C08_from_samples_is_documented : forall o ty vs, o_guess_dates o = false -> ok o 0 ty = true -> Cov ty vs ->
+  from_samples o [] vs = doc_schema o ty.
+Proof. exact from_samples_covering. Qed.
+
+Theorem C08_tracers_agree : forall o ty vs budget, o_guess_dates o = false -> ok o 0 ty = true -> passes ty <= budget -> Cov ty vs ->
+  from_samples o [] vs = from_type o [] budget ty.
+Proof. exact tracers_agree. Qed.
+
+(* the schema does not see the sample counters that `norm` forgets *)
+Theorem C08_schema_ignores_counters : forall o t name path, to_field o [] name path (norm t) = to_field o [] name path t.
+Proof. exact to_field_norm. Qed.
+
+(* non-vacuity: a struct with an Option, a Vec<String> and an enum with a unit and a newtype variant; two samples cover it *)
+Definition c08_cty : Ty := TyStruct [(b "a", TyOption (TyInt I32)); (b "l", TySeq TyString); (b "e", TyEnum [(b "A", PUnit); (b "B", PNewtype TyBool)])].
+Definition c08_f1 : list (bytes * Value) := [(b "a", VSome (VInt I32 1)); (b "l", VSeq [VStr (b "x")]); (b "e", VUnitVariant 0 (b "A"))].
+Definition c08_f2 : list (bytes * Value) := [(b "a", VNone); (b "l", VSeq []); (b "e", VNewtypeVariant 1 (b "B") (VBool true))].
+Definition c08_copts : Opts := {| o_allow_null := true; o_map_as_struct := true; o_large_list := true; o_large_utf8 := true; o_dict := false;
+                                  o_coerce := false; o_to_string := false; o_guess_dates := false; o_enums_str := false |}.
+Example C08_cover_example : Cov c08_cty [VStruct c08_f1; VStruct c08_f2] /\ ok c08_copts 0 c08_cty = true /\
+  exists fs, from_samples c08_copts [] [VStruct c08_f1; VStruct c08_f2] = Ok fs /\ length fs = 3.
+Proof.
+  split; [|split; [reflexivity|eexists; split; [vm_compute; reflexivity|reflexivity]]].
+  cbn [Cov c08_cty]. exists [c08_f1; c08_f2]. split; [reflexivity|]. split; [discriminate|]. split; [repeat constructor; cbn; intuition discriminate|]. split; [repeat constructor|].
+  split; [|split; [|split; [|exact I]]].
+  - replace (vals (b "a") [c08_f1; c08_f2]) with [VSome (VInt I32 1); VNone] by reflexivity. split; [apply Forall_cons; [right; eexists; reflexivity|apply Forall_cons; [left; reflexivity|constructor]]|].
+    cbn [somes flat_map app]. split; [discriminate|repeat constructor; eexists; reflexivity].
+  - replace (vals (b "l") [c08_f1; c08_f2]) with [VSeq [VStr (b "x")]; VSeq []] by reflexivity. exists [[VStr (b "x")]; []]. split; [reflexivity|].
+    cbn [concat app]. split; [discriminate|repeat constructor; eexists; reflexivity].
+  - replace (vals (b "e") [c08_f1; c08_f2]) with [VUnitVariant 0 (b "A"); VNewtypeVariant 1 (b "B") (VBool true)] by reflexivity.
+    split; [discriminate|]. split; [repeat constructor; discriminate|]. split; [repeat constructor; cbn; lia|].
+    replace (pls [VUnitVariant 0 (b "A"); VNewtypeVariant 1 (b "B") (VBool true)]) with [(0%Z, b "A", VUnit); (1%Z, b "B", VBool true)] by reflexivity.
+    cbn [wsel flat_map Z.eqb Z.of_nat Pos.of_succ_nat Pos.eqb app map snd fst].
+    repeat split; try discriminate; repeat constructor; try (left; reflexivity); try (eexists; reflexivity).
+Qed.
+
+Print Assumptions C08_samples_give_full_tracer.
+Print Assumptions C08_from_samples_is_documented.
+Print Assumptions C08_tracers_agree.
+Print Assumptions C08_schema_ignores_counters.
 Print Assumptions C08_leaf_tracers_agree.
 Print Assumptions C08_overwrite_replaces.
 Print Assumptions C08_coerce_arms_match_model.
